@@ -125,7 +125,7 @@ HGoal == <<"cnt", 6>>
 LawSols == << [s |-> "s1", r1 |-> "-"], [s |-> "s2", r1 |-> "-"] >>
 LawDefs == { [sols |-> SubSeq(LawSols, 1, k), end |-> e, ball |-> IF e = "throw" THEN "b" ELSE ""] :
                k \in (IF Tier = "quick" THEN 1..1 ELSE 0..2), e \in {"fail", "throw", "diverge"} }
-LawM == 2
+LawM == IF Tier = "quick" THEN 1 ELSE 2
 LawItems == { [s |-> "s1", r1 |-> "-", r |-> "true"], [s |-> "s2", r1 |-> "-", r |-> "true"],
               [s |-> "s2", r1 |-> "-", r |-> "!"], [s |-> "s1", r1 |-> "-", r |-> "!"], ExcItem }
 LawItemSeqs == {<<>>} \cup {<<x>> : x \in LawItems}
